@@ -232,8 +232,9 @@ func (fr *frame) visitInstr(instr ssa.Instruction) bool /* returned */ {
 		if x == nil {
 			fr.env[instr] = (*Value)(nil)
 		} else {
-			// array shares storage only approximately: copy-in (documented limitation)
-			p.unsupported("slice to array pointer conversion")
+			// the array view shares its elements with the slice's backing store
+			var av Value = Array(x[:n:n])
+			fr.env[instr] = &av
 		}
 
 	case *ssa.MakeInterface:
